@@ -24,6 +24,7 @@ CONSTANTS
   Tickets = TRUE
   Changes = {"none", "revoke"}
   Presents = {"same", "nocert"}
+  Memory = FALSE
 INIT Init
 NEXT Next
-INVARIANTS AuthSound VpcSound ScopeSound Complete ResumeSound ResumeScope
+INVARIANTS AuthSound VpcSound ScopeSound Complete ResumeSound ResumeScope SeqSound
